@@ -347,14 +347,14 @@ done:
   return status;
 }
 
-ares_status_t ares_dns_name_write(ares_buf_t *buf, ares_llist_t **list,
+ares_status_t ares_dns_name_write(ares_buf_t *buf, ares_dns_namelist_t *list,
                                   ares_bool_t validate_hostname,
                                   const char *name)
 {
   const ares_nameoffset_t *off = NULL;
   size_t                   name_len;
   size_t                   orig_name_len;
-  size_t                   pos    = ares_buf_len(buf);
+  size_t                   pos    = 0;
   ares_array_t            *labels = NULL;
   char                     name_copy[512];
   ares_status_t            status;
@@ -375,7 +375,10 @@ ares_status_t ares_dns_name_write(ares_buf_t *buf, ares_llist_t **list,
 
   /* Find longest match */
   if (list != NULL) {
-    off = ares_nameoffset_find(*list, name_copy);
+    /* Offset of this name from the start of the message, the buffer may hold
+     * other data in front of it (e.g. the TCP length prefix) */
+    pos = ares_buf_len(buf) - list->msg_start;
+    off = ares_nameoffset_find(list->names, name_copy);
     if (off != NULL && off->name_len != name_len) {
       /* truncate */
       name_len            -= (off->name_len + 1);
@@ -431,7 +434,8 @@ ares_status_t ares_dns_name_write(ares_buf_t *buf, ares_llist_t **list,
    * a prior entry */
   if (list != NULL && (off == NULL || off->name_len != orig_name_len) &&
       name_len > 0) {
-    status = ares_nameoffset_create(list, name /* not truncated copy! */, pos);
+    status =
+      ares_nameoffset_create(&list->names, name /* not truncated copy! */, pos);
     if (status != ARES_SUCCESS) {
       goto done; /* LCOV_EXCL_LINE: OutOfMemory */
     }
